@@ -5,6 +5,7 @@
 (*         for two more calls after the first EOF                               *)
 (*   err   [id, arg, l]  (id "none": no exception)                              *)
 (*   etype name of the exception type ("" if none)                              *)
+(*   n     cursor reads (_next_char calls) up to the first EOF / the error      *)
 EXTENDS TokenizerOps
 
 FoldFn(pairs) == [c \in {pairs[i][1] : i \in 1..Len(pairs)} |->
@@ -16,8 +17,8 @@ CfOf(r) == [o |-> r.o, fold |-> FoldFn(r.fold)]
 \* What a caller must observe for this text: Lex, then EOF for ever (two more calls are logged).
 Observed(L) ==
     IF L.err = NoErrL
-    THEN [toks |-> L.toks \o <<L.toks[Len(L.toks)], L.toks[Len(L.toks)]>>, err |-> L.err]
-    ELSE [toks |-> L.toks, err |-> L.err]
+    THEN [toks |-> L.toks \o <<L.toks[Len(L.toks)], L.toks[Len(L.toks)]>>, err |-> L.err, n |-> L.n]
+    ELSE [toks |-> L.toks, err |-> L.err, n |-> L.n]
 Expected(text, cf) == Observed(Lex(text, cf))
 \* out = one logged run; etype = the exception type the tokenizer was told to raise
 Agrees(out, exp, etype) ==
